@@ -271,6 +271,8 @@ impl Complex::<f64> {
         let sqr = self.abs_sqr();
         // ordinary range: neither square overflowed and whatever underflowed is negligible
         if sqr >= 1.0e-270 && sqr <= 1.0e270 { return f64::sqrt( sqr ); }
+        // a NaN part stays NaN ( hypot( inf, NaN ) is inf, and Laguerre's iteration relies on NaN comparing false )
+        if sqr.is_nan() { return sqr; }
         // otherwise ( |z| beyond 1.3e154 gave inf, |z| below 1.5e-162 gave 0 ) take the scaled form
         self.real.hypot( self.imag )
     }
